@@ -166,7 +166,7 @@ struct ArrTarget : Target {
             int op = lo; if (total) { int x = (int)r.below((uint64_t)total); while (x >= w[op]) { x -= w[op]; op++; } }
             Step s; s.op = ops[(size_t)op];
             // args: obj, src, n, rank, e0, e1, e2, style
-            s.a = {o, (long)r.below((uint64_t)nobj), (long)r.below(64), 1 + (long)r.below(3), 1 + (long)r.below(4), 1 + (long)r.below(4), 1 + (long)r.below(4), (long)r.below(2)};
+            s.a = {o, (long)r.below((uint64_t)nobj), (long)r.below(64), r.chance(0.08) ? 4 : 1 + (long)r.below(3), 1 + (long)r.below(4), 1 + (long)r.below(4), 1 + (long)r.below(4), (long)r.below(2)};
             if (s.op == "resize" && r.chance(0.5)) {
                 // bias toward shapes that are interesting for this kind: same element count / at a capacity edge
                 static const long fav[][4] = {{3, 2, 3, 2}, {3, 2, 2, 3}, {3, 3, 2, 2}, {2, 3, 4, 1}, {2, 4, 3, 1}, {2, 2, 3, 1}, {1, 4, 1, 1}, {3, 1, 3, 4}, {3, 4, 3, 1}, {2, 2, 2, 1}, {3, 1, 1, 1}, {1, 1, 1, 1}, {3, 3, 4, 1}, {2, 3, 2, 1}};
@@ -187,8 +187,10 @@ struct ArrTarget : Target {
     void destroy(long o) { { Sut s; obj(o)->~A(); } env->slots.kill((size_t)o); model[o] = Model(); }
 
     static Shape step_shape(const Step& st) {
-        long r = st.arg(3, 1); if (r < 1) r = 1; if (r > 3) r = 3;
-        Shape s; for (long i = 0; i < r; i++) { long e = st.arg(4 + (size_t)i, 1); if (e < 1) e = 1; if (e > 4) e = 4; s.push_back((size_t)e); }
+        long r = st.arg(3, 1); if (r < 1) r = 1; if (r > 4) r = 4;
+        Shape s;
+        for (long i = 0; i < r && i < 3; i++) { long e = st.arg(4 + (size_t)i, 1); if (e < 1) e = 1; if (e > 4) e = 4; if (r == 4 && e > 2) e = 2; s.push_back((size_t)e); }
+        if (r == 4) s.push_back((size_t)(1 + st.arg(2) % 2));   // rank 4 (beyond every bounded rank here) with small extents
         return s;
     }
 
@@ -331,6 +333,7 @@ struct ArrTarget : Target {
             case 1: if constexpr (Acc::rank_ok(1)) return &call_idx(r, p, std::make_index_sequence<1>{}); break;
             case 2: if constexpr (Acc::rank_ok(2)) return &call_idx(r, p, std::make_index_sequence<2>{}); break;
             case 3: if constexpr (Acc::rank_ok(3)) return &call_idx(r, p, std::make_index_sequence<3>{}); break;
+            case 4: if constexpr (Acc::rank_ok(4)) return &call_idx(r, p, std::make_index_sequence<4>{}); break;
         }
         return nullptr;
     }
